@@ -165,6 +165,37 @@ theorem C05_link_choice_equal_times (db : Db) (subs : List Sub) (m : Msg) (now :
   | false => rfl
   | true => rw [hq2] at this; simp at this
 
+/-- **C05 (the second sort key picks the end of the chain)**: let the candidates of the predecessor
+    query be `pre ++ [l]` in the order the rows were made, with publish times that do not decrease
+    (rows are stamped with the clock), where `l`, the row made last, has nobody waiting on it and
+    every earlier candidate that shares `l`'s publish time has somebody waiting on it (it is in the
+    middle of the chain: the row made after it was linked behind it).  Then the only answer the query
+    `ORDER BY published_at DESC, <somebody waits on it> LIMIT 1` may give is `l` — whatever the
+    publish times are, equal or not.  Without the second key (the code before 652c205) any candidate
+    sharing `l`'s publish time was an allowed answer. -/
+theorem C05_tie_break_picks_chain_end (db : Db) (pre : List Delivery) (l q : Delivery)
+    (hsorted : ∀ e ∈ pre, e.publishedAt ≤ l.publishedAt)
+    (hmiddle : ∀ e ∈ pre, e.publishedAt = l.publishedAt → hasSucc db e = true)
+    (hend : hasSucc db l = false)
+    (hq : q ∈ pre ++ [l]) (hnew : newestIn db (pre ++ [l]) q = true) : q = l := by
+  have htb : tieBreak = true := by unfold tieBreak; rw [C05_predecessor_query_order]; rfl
+  unfold newestIn at hnew
+  have hl := List.all_eq_true.mp hnew l (by simp)
+  simp only [htb, Bool.and_eq_true, Bool.or_eq_true, Bool.not_eq_true', Bool.not_true, Bool.false_eq_true,
+    false_or, decide_eq_true_eq, beq_eq_false_iff_ne, ne_eq, hend, or_false] at hl
+  rcases List.mem_append.mp hq with hp | hp
+  · exfalso
+    have h1 := hsorted q hp
+    have heq : q.publishedAt = l.publishedAt := by
+      have := hl.1
+      unfold Time at *
+      omega
+    have h2 := hmiddle q hp heq
+    rcases hl.2 with h3 | h3
+    · exact h3 heq.symm
+    · rw [h2] at h3; cases h3
+  · simpa using hp
+
 /-! ### the global statement, for histories that refine the ordered-delivery steps -/
 
 /-- every step of the run from `st` satisfies the refinement obligation (with the clock assumption:
